@@ -405,6 +405,7 @@ func (c *Channel) NewStream(ctx context.Context, desc *grpc.StreamDesc, method s
 	}()
 	cs := &inProcessClientStream{
 		ctx:            ctx,
+		cancel:         cancel,
 		cloner:         cloner,
 		svrCtx:         svrDoneCtx,
 		requests:       requests,
@@ -628,6 +629,7 @@ func (s *inProcessServerStream) RecvMsg(m interface{}) error {
 // (which runs in a separate goroutine).
 type inProcessClientStream struct {
 	ctx            context.Context
+	cancel         context.CancelFunc
 	cloner         Cloner
 	svrCtx         context.Context
 	copts          *internal.CallOptions
@@ -779,6 +781,10 @@ func (s *inProcessClientStream) ensureNoMoreLocked(m interface{}) error {
 	if err == nil {
 		s.last = &frame{err: status.Error(codes.Internal, "method should return 1 response message but server sent >1")}
 		s.state = streamStateClosed
+		// we won't be reading from the channel anymore, so we must cancel the
+		// context so that the server goroutine doesn't hang trying to send the
+		// rest of its frames
+		s.cancel()
 		return s.last.err
 	}
 	if err != io.EOF {
@@ -816,6 +822,10 @@ func writeMessage(ctx, remoteCtx context.Context, ch chan<- frame, m frame) erro
 	case <-remote:
 		// This is weird, but mimics normal gRPC streams: io.EOF is used
 		// to notify client that server has closed the stream
+		return io.EOF
+	}
+	if remoteCtx != nil && remoteCtx.Err() != nil && ctx.Err() != nil {
+		// the server is done as well: report that, whichever case fired
 		return io.EOF
 	}
 	return ctx.Err()
